@@ -56,12 +56,13 @@ Section BT.
     end.
 
   (* The matcher selected by with_scm_loop_impl / with_scm_compute_max for the instruction after a
-     Loop1CharBody.  Ok None = the `?` early return on a Char that does not narrow. *)
+     Loop1CharBody.  Ok None is no longer produced (kept in the type for the dispatch result). *)
   Definition scm_dispatch (ip : nat) (fwd : bool) : R (option (nat -> R (option nat))) :=
     match nth_error (p_insns prog) (S ip) with
     | None => Err Oob
     | Some (Char c) =>
-        if ix_elem_of_u32 ix c then Ok (Some (fun p => next_if ix fwd h p (N.eqb c))) else Ok None
+        if ix_elem_of_u32 ix c then Ok (Some (fun p => next_if ix fwd h p (N.eqb c)))
+        else Ok (Some (fun _ => Ok None))   (* unrepresentable char: never matches, zero iterations *)
     | Some (ByteSeq bs) =>
         if (length bs <=? 6)%nat then Ok (Some (fun p => match_bytes fwd h p bs)) else Err Panic
     | Some i =>
